@@ -293,7 +293,7 @@ Proof. destruct p; cbn; congruence. Qed.
 
 Ltac use_impl :=
   repeat match goal with
-  | H : ?a = true, F : ?a = true -> _ |- _ => specialize (F H)
+  | H : ?a = ?b, F : ?a = ?b -> _ |- _ => specialize (F H)
   end.
 
 Ltac cbn_st :=
@@ -302,6 +302,13 @@ Ltac cbn_st :=
        with_threads with_mu with_lru with_out do_set_closed do_close_done do_cancel_watch do_watch_done
        in_cs pre_done post_done late_direct_pc is_ClSet is_ClWaitWatch is_FinNil is_FinEarly is_close is_direct_true
        pc_ok watcher_pc_ok holds implb negb andb orb Bool.eqb] in *.
+
+Ltac bsolve2 :=
+  cbn_st; try reflexivity; try assumption; try congruence;
+  batoms; cbn_st; use_impl; cbn_st; try reflexivity; try congruence;
+  try (exfalso;
+       repeat match goal with H : _ /\ _ |- _ => destruct H end;
+       first [ congruence | lia ]).
 
 Lemma invB_step_tinv s l s' :
   InvA s -> InvB s -> stepf s l = Some s' ->
@@ -319,10 +326,13 @@ Proof.
       pose proof (A2 _ _ Hx) as O2';
       pose proof (fun h1 h2 => C4 _ _ _ _ Hth Hx h1 h2) as U0
     end;
+    try (pose proof (A1 _ _ Hth) as O1);
     unfold tinv in *; norm_finish; cbn_st; rewrite ?Hpc in *; cbn_st;
+    try (destruct hit; cbn_st);
     try (destruct (t_call th) as [|[|] ?| |?] eqn:Hcall; cbn_st; try discriminate);
-    try (destruct c; cbn_st);
-    bsplit_hyps; bsplit_goal; try (rewrite Nat.eqb_refl); bsolve.
+    try (destruct c as [|[|] ?| |?]; cbn_st);
+    use_impl; cbn_st; try discriminate;
+    bsplit_hyps; bsplit_goal; try (rewrite Nat.eqb_refl); bsolve2.
   all: match goal with |- ?g => idtac "GOAL" g end.
   Show.
 Admitted.
